@@ -194,7 +194,7 @@ void policy_scenario() {
   int inside = 0, calls = 0;
   std::vector<int> seen(n, 0);
   auto f = [&](std::size_t i) noexcept {
-    if (inside++ && !par_ok) rt::fail("function registered with policy %s invoked concurrently (index %zu)", policy_name<P>(), i);
+    if (inside++ && !par_ok) rt::fail("function registered with policy %s invoked concurrently", policy_name<P>());
     rt::point("in-bulk-function");
     ++calls;
     if (i < n) ++seen[i];
